@@ -27,6 +27,7 @@ let fill_token dt =
   | "i16" | "u16" -> 9999
   | "b" -> 1
   | "str" -> -999999
+  | "f32" | "f64" | "c64" | "c128" -> 88888888
   | _ -> failwith "no fill token"
 
 (* ---- printing ---- *)
@@ -174,6 +175,18 @@ let step dt (impl_step : string) (t : z mten) (s : sstate) (op : string) : stepr
     let s' = if valid then { s with sh = ks_T_shape axes s.sh; d = ks_T Z0 axes s.sh s.d; m = ks_T false axes s.sh s.m } else s in
     change (k_T is_str t axes) s' (not valid)
       (if t.mt_old <> None then "retranspose" else if is_str && t.mt_old <> None then "string" else "")
+  | "safet" | "apitr" ->
+    (* the copying spellings: Dense.SafeT / tensor.T (a copy carrying the lazy transpose) and
+       tensor.Transpose (the copy transposed physically); the mask goes with the copy *)
+    let axes = zs f.(1) in
+    let valid = is_perm (List.length s.sh) (List.map int_of_z axes) in
+    let s' = if valid then { s with sh = ks_T_shape axes s.sh; d = ks_T Z0 axes s.sh s.d; m = ks_T false axes s.sh s.m; soft = false } else s in
+    let c = with_soft { (k_clone t) with mt_old = None } false in
+    let r = (match k_T is_str c axes with
+        | Ok c' when f.(0) = "apitr" && c'.mt_old <> None -> k_transpose is_str c'
+        | x -> x) in
+    change r s' (not valid)
+      (if t.mt_old <> None then "retranspose" else if t.mt_view then "view" else "")
   | "transpose" ->
     change (k_transpose is_str t) s false (if is_str then "string" else if t.mt_view then "view" else "")
   | "slice" ->
